@@ -117,7 +117,7 @@ def cases(E):
     cs.append(Case("vf.contracts.c_codegen.generate_assign_frame_contract", "`a := expr` in a block whose enclosing scope binds `a`", shape_assign_frame, target=[G + "generate_assign", Y + "Scope.add_symbol"]))
     # a macro argument that mentions a name is resolved in the scope of the CALL, also after sibling scopes that define the same name privately
     from vf.props import C09 as c09
-    cs += [c for c in c09.cases(E) if c.harness.endswith("deferred_application_contract")]
+    cs += [c for c in c09.own_cases(E)]
     from vf.props import expansion
     cs += expansion.cases(E)
     cs.append(Case(H + "scope_replay_wrapper_contract", "{ a: x: .scope s { b: x: { c: x: } } d: } e:", shape_replay, target=[G + "_code_gen", "a816.program.Program.resolve_labels"]))
